@@ -86,11 +86,14 @@ def explore(harness, lines, bound, budget, scratch, timeout=75, workers=None, ho
 
 
 STATS = {}      # property -> what was enumerated (merged into the evidence by common.finish)
+DISABLED = False    # set by callers that only want a plugin's random families (e.g. C18's hygiene sweep)
 
 
 def enum_cases(prop, harness, bases, tier, scratch, mk=lambda name, lines, base: (name, lines), want=None, budget=None):
     """bases: list of (name, lines[, more...]); yields cases in the plugin's own tuple shape (built by mk) — one per enumerated schedule.
     quick: every schedule within ONE deviation from the non-preemptive run first, 250 per base; thorough: bound 2, 4000 per base."""
+    if DISABLED:
+        return
     bound, dflt = (1, 250) if tier == "quick" else (2, 4000)
     budget = budget or dflt
     want = want or (4 if tier == "quick" else 8)
